@@ -653,7 +653,7 @@ def run_histories(chk, tools, hists, tags, stream_of):
 
 def run(chk):
     quick = chk.tier == "quick"
-    ok, log = chk.prove(["extract/Extract_C20.vo"], extra_props=["Properties_C20_source.v"])
+    ok, log = chk.prove(["extract/Extract_C20.vo"], extra_props=["Properties_C20_source.v", "Properties_C20_statics.v"])
     chk.trusted += ["translator/gen_c20.py (factory arrays, guards, default arguments, enum spin) and translator/cexpr.py",
                     "translator/gen_lattice.py + translator/cstmt.py (statement splitter, expression parser; statement-by-statement translation of "
                     "Lattice::addTerm and the eleven LatticePresets functions into the W vocabulary of coq/theories/Lattice.v + LatticeShapes.v, shape "
@@ -830,7 +830,7 @@ def replay(chk, path):
     if not lines:
         run(chk)
         return chk.finish()
-    chk.prove(["extract/Extract_C20.vo"], extra_props=["Properties_C20_source.v"])
+    chk.prove(["extract/Extract_C20.vo"], extra_props=["Properties_C20_source.v", "Properties_C20_statics.v"])
     tools = Tools()
     h = [("replay", lines)]
     rc, bi, err = tools.impl(h, timeout=120)
